@@ -91,6 +91,21 @@ def step (t : List String) : Option String :=
       | none => pure "abort"
       | some none => pure "ok nullret"
       | some (some _) => pure "ok copied=1 app=1"
+  | ["denyfs", el, off, num] => do
+      let (p, _) ← addrOf off
+      let sz ← appSize el
+      let c ← (parseInt? num).map Int.toNat
+      if (c * sz) % W64 ≥ 2 ^ 48 then pure "ok nullret" else
+      match denyAccessCopy K p c sz with
+      | none => pure "abort"
+      | some none => pure "ok nullret"
+      | some (some (q, n)) =>
+          -- the source holds the pattern; the sandbox's `free` overwrites the whole block
+          let mem : Nat → Nat := fun a => if q ≤ a ∧ a < q + n then ((a - q) * 7 + 3) % 251 else 0x11
+          let poison : (Nat → Nat) → (Nat → Nat) := fun m a => if q ≤ a ∧ a < q + n then 0xDD else m a
+          let (copy, _) := denyCopyMem mem poison q n true
+          let same := copy == (List.range n).map fun i => (i * 7 + 3) % 251
+          pure s!"ok copied=1 app=1 bytes={if same then "same" else "diff"} freed=1"
   | ["grant", el, src, num] => do
       let (s, sk) ← addrOf src
       let sz ← appSize el
